@@ -714,3 +714,88 @@ func H_C06_scale_many_fields() {
 	verifAssert(!dup && len(seen) == o.Count(), "Keys of a large object lists every key exactly once")
 	verifReach("end")
 }
+
+// ---- C07 / C08: deeply nested containers ----
+
+func H_C08_scale_deep() {
+	d := hScaleDepth()
+	c := hDeep(d, nondetInt())
+	before := hSnapAny(c)
+	cl := hCloneAny(c)
+	verifAssert(hExact(before, hSnapAny(cl)), "the clone of a deeply nested container has the same content")
+	var co, cc []any
+	hContainers(c, &co)
+	hContainers(cl, &cc)
+	verifAssert(len(co) == d && len(cc) == d, "every level of a deeply nested container is cloned")
+	shared := false
+	for i := range co {
+		// levels correspond one to one; a shared container would be shared at its own level or below
+		shared = shared || co[i] == cc[i] || co[i] == cc[len(cc)-1]
+	}
+	verifAssert(!shared, "no level of a deep clone is a container of the original")
+	// write at the bottom of the clone: the original must not move
+	switch b := cc[len(cc)-1].(type) {
+	case List:
+		b.Add("w")
+	case Object:
+		b.Set("w", 1)
+	}
+	verifAssert(hExact(before, hSnapAny(c)), "writing at the bottom of a deep clone leaves the original unchanged")
+	verifReach("end")
+}
+
+func H_C07_scale_deep() {
+	d := hScaleDepth()
+	x, y := nondetInt(), nondetInt()
+	a, b := hDeep(d, x), hDeep(d, y)
+	eq := func(p, q any) bool {
+		switch pp := p.(type) {
+		case List:
+			return pp.Equals(q.(List))
+		case Object:
+			return pp.Equals(q.(Object))
+		}
+		return false
+	}
+	verifAssert(eq(a, b) == (x == y), "deeply nested containers are equal exactly when the scalar at the bottom is")
+	verifAssert(eq(b, a) == (x == y), "… in both directions")
+	verifAssert(eq(a, a), "a deeply nested container equals itself")
+	c := hDeep(d-2, NewList(NewList(x))) // same depth, the bottom two levels both lists: differs from a in one kind only when d-1 is odd
+	if (d-1)%2 == 1 || (d-2)%2 == 1 {
+		verifAssert(!eq(a, c) && !eq(c, a), "a list never equals an object at the same place deep inside")
+	}
+	verifReach("end")
+}
+
+// ---- C19: derived lists with many elements ----
+
+func H_C19_scale_fluent() {
+	n := hScaleSmallN()
+	vals := make([]any, n)
+	for i := range vals {
+		vals[i] = (i * 31) % n
+	}
+	x := nondetInt()
+	verifAssume(x > 1000000) // one order, decided by the solver at every comparison, instead of a fork per position
+	vals[n-1] = x
+	dl := hDerivedList(vals...)
+	var r List
+	switch nondetIntRange(0, 5) {
+	case 0:
+		r = dl.Sort()
+	case 1:
+		r = dl.Reverse()
+	case 2:
+		r = dl.Add(1, 2)
+	case 3:
+		r = dl.Delete(0, n/2)
+	case 4:
+		r = dl.ForEach(func(int, any) {})
+	default:
+		r = dl.Sort().Sort().Reverse()
+	}
+	verifAssert(r == dl, "a fluent call on a long derived list returns the derived value")
+	holder := NewList(dl)
+	verifAssert(holder.Get(0) == any(dl) && holder.GetList(0) == dl, "a long derived list comes back from storage as itself")
+	verifReach("end")
+}
